@@ -545,13 +545,21 @@ class Check(core.PropertyCheck):
         self._extra_behs += [(b, 5) for b in behs]
         ctx.notes["bound_model"] = {"constants": dict(self.BOUND), "simulated_behaviours": len(behs), "states_generated": r.generated}
         runs = [main]
+        required, self.REQUIRED_ACTIONS = self.REQUIRED_ACTIONS, ()   # auxiliary instances need not take every action
+        try:
+            self._aux_runs(ctx, base, bconsts, runs)
+        finally:
+            self.REQUIRED_ACTIONS = required
+        return runs
+
+    def _aux_runs(self, ctx, base, bconsts, runs):
         if not ctx.quick:
             big = base | {"Cfgs": tuple(cfgs("thorough"))}
             runs.append(ctx.model_check(self.MODEL, big, dump=False, tag="_big"))
-            behs, r = ctx.simulate(self.MODEL, big, num=4000, depth=40, tag="big")
+            behs, r = ctx.simulate(self.MODEL, big, num=2000, depth=40, tag="big")
             self._extra_behs += [(b, base["Cap"]) for b in behs]
             ctx.notes["big_model_simulated_behaviours"] = len(behs)
-            runs.append(ctx.model_check(self.MODEL, bconsts | {"Cfgs": (_cfg(batch=7, maxconns=7, feat=("close", "fail"), maxops=8),)},
+            runs.append(ctx.model_check(self.MODEL, bconsts | {"Cfgs": (_cfg(batch=7, maxconns=7, feat=("close", "fail"), maxops=6),)},
                                         dump=False, tag="_bound"))
         return runs
 
